@@ -21,6 +21,8 @@ type Solver struct {
 	out     *bufio.Reader
 	defined map[int]bool
 	ufs     map[string]bool
+	defStk  [][]int    // term ids defined per open scope
+	ufStk   [][]string // uf names declared per open scope
 	store   *TermStore
 	buf     strings.Builder
 	depth   int
@@ -63,7 +65,7 @@ func NewSolver(kind string, store *TermStore, timeoutMs int) (*Solver, error) {
 	}
 	s := &Solver{Kind: kind, cmd: cmd, in: in, out: bufio.NewReaderSize(outp, 1<<16),
 		defined: map[int]bool{}, ufs: map[string]bool{}, store: store, TimeoutMs: timeoutMs}
-	s.raw("(set-option :global-declarations true)\n(set-option :produce-models true)\n")
+	s.raw("(set-option :produce-models true)\n")
 	if kind != "cvc5" {
 		s.raw(fmt.Sprintf("(set-option :timeout %d)\n", timeoutMs))
 	}
@@ -96,12 +98,14 @@ func (s *Solver) flush() error {
 	return err
 }
 
-// define emits declarations/definitions for every node of t not yet known.
-func (s *Solver) define(t *Term) {
-	if t.Op == OpConst || s.defined[t.ID] {
-		return
+// declare emits declarations for every variable / UF below t not yet known in
+// the open scopes, and returns the non-leaf nodes of t in dependency order.
+func (s *Solver) declare(t *Term) []*Term {
+	var order []*Term
+	if t.Op == OpConst {
+		return nil
 	}
-	// iterative post-order
+	seen := map[int]bool{}
 	type fr struct {
 		t *Term
 		i int
@@ -109,27 +113,39 @@ func (s *Solver) define(t *Term) {
 	stack := []fr{{t, 0}}
 	for len(stack) > 0 {
 		top := &stack[len(stack)-1]
-		if top.t.Op == OpConst || s.defined[top.t.ID] {
+		if top.i == 0 && (top.t.Op == OpConst || seen[top.t.ID]) {
 			stack = stack[:len(stack)-1]
 			continue
 		}
 		if top.i < len(top.t.Args) {
 			a := top.t.Args[top.i]
 			top.i++
-			if a.Op != OpConst && !s.defined[a.ID] {
+			if a.Op != OpConst && !seen[a.ID] {
 				stack = append(stack, fr{a, 0})
 			}
 			continue
 		}
 		n := top.t
 		stack = stack[:len(stack)-1]
-		s.defined[n.ID] = true
+		if seen[n.ID] {
+			continue
+		}
+		seen[n.ID] = true
 		if n.Op == OpVar {
-			s.raw(fmt.Sprintf("(declare-const %s %s)\n", n.Name, n.Sort.SMT()))
+			if !s.defined[n.ID] {
+				s.defined[n.ID] = true
+				if len(s.defStk) > 0 {
+					s.defStk[len(s.defStk)-1] = append(s.defStk[len(s.defStk)-1], n.ID)
+				}
+				s.raw(fmt.Sprintf("(declare-const %s %s)\n", n.Name, n.Sort.SMT()))
+			}
 			continue
 		}
 		if n.Op == OpUF && !s.ufs[n.Name] {
 			s.ufs[n.Name] = true
+			if len(s.ufStk) > 0 {
+				s.ufStk[len(s.ufStk)-1] = append(s.ufStk[len(s.ufStk)-1], n.Name)
+			}
 			sig := s.store.UFs[n.Name]
 			var as []string
 			for _, a := range sig.args {
@@ -137,16 +153,50 @@ func (s *Solver) define(t *Term) {
 			}
 			s.raw(fmt.Sprintf("(declare-fun %s (%s) %s)\n", n.Name, strings.Join(as, " "), sig.res.SMT()))
 		}
-		s.raw(fmt.Sprintf("(define-fun t%d () %s %s)\n", n.ID, n.Sort.SMT(), body(n)))
+		order = append(order, n)
 	}
+	return order
 }
 
-func (s *Solver) Push() { s.raw("(push 1)\n"); s.depth++ }
-func (s *Solver) Pop()  { s.raw("(pop 1)\n"); s.depth-- }
+func (s *Solver) Push() {
+	s.raw("(push 1)\n")
+	s.depth++
+	s.defStk = append(s.defStk, nil)
+	s.ufStk = append(s.ufStk, nil)
+}
 
+func (s *Solver) Pop() {
+	s.raw("(pop 1)\n")
+	s.depth--
+	n := len(s.defStk) - 1
+	for _, id := range s.defStk[n] {
+		delete(s.defined, id)
+	}
+	for _, u := range s.ufStk[n] {
+		delete(s.ufs, u)
+	}
+	s.defStk = s.defStk[:n]
+	s.ufStk = s.ufStk[:n]
+}
+
+// Assert sends t as one self-contained assertion; shared subterms are bound
+// with nested lets (no define-fun: z3's get-value becomes very slow when
+// thousands of macros are in scope).
 func (s *Solver) Assert(t *Term) {
-	s.define(t)
-	s.raw("(assert " + ref(t) + ")\n")
+	order := s.declare(t)
+	if len(order) == 0 {
+		s.raw("(assert " + ref(t) + ")\n")
+		return
+	}
+	s.raw("(assert ")
+	for _, n := range order[:len(order)-1] {
+		s.raw("(let ((t" + strconv.Itoa(n.ID) + " " + body(n) + ")) ")
+	}
+	s.raw(body(order[len(order)-1]))
+	for range order[:len(order)-1] {
+		s.raw(")")
+	}
+	s.raw(")\n")
 }
 
 // Check runs check-sat in the current scope.
